@@ -11,7 +11,9 @@ The monitor checks the property itself on the implementation's results.
 import contextlib
 import io
 import json as _json
+import math as _math
 import re as _re
+import time as _time
 from fractions import Fraction
 
 from . import common
@@ -33,9 +35,11 @@ def build_schema(spec, name="M"):
     fields = {}
     for f in spec:
         t = f["type"]
-        if t in ("nested", "opt_nested"):
+        if t in ("nested", "opt_nested", "list_nested"):
             inner = build_schema(f["fields"], name + "_" + f["name"])
-            ann = inner if t == "nested" else Optional[inner]
+            ann = inner if t == "nested" else Optional[inner] if t == "opt_nested" else List[inner]
+        elif t in ("list_bool", "list_opt_int"):
+            ann = List[bool] if t == "list_bool" else List[Optional[int]]
         else:
             ann = {"int": int, "float": float, "str": str, "bool": bool, "list_int": List[int],
                    "list_str": List[str], "opt_int": Optional[int], "opt_str": Optional[str]}[t]
@@ -255,6 +259,31 @@ def apply_text_op(rng, op, s):
         return rng.choice(["first %s then %s", "%s %s", "```json\n%s\n```\n```json\n%s\n```", "<json>%s</json><json>%s</json>"]) % (
             (other, s) if rng.random() < 0.7 else (s, other))
     return s
+
+
+# ONE repairable defect occurring MANY times in one text (a list of n objects / booleans / optional ints printed by a
+# Python-minded serialiser): every REPAIR rule has to rewrite all n occurrences, in the plain and in the enhanced fold alike.
+MANY_SPEC = [{"name": "items", "type": "list_nested", "required": True, "fields": [
+                 {"name": "b", "type": "opt_int", "required": False},
+                 {"name": "s", "type": "str", "required": False, "default": "d"},
+                 {"name": "l", "type": "list_int", "required": False, "default": []},
+                 {"name": "t", "type": "bool", "required": False, "default": False}]},
+             {"name": "flags", "type": "list_bool", "required": False, "default": []},
+             {"name": "vals", "type": "list_opt_int", "required": False, "default": []}]
+MANY_KINDS = {"comma_obj": '{"b": %d, "t": true,}', "comma_arr": '{"b": %d, "l": [1, 2,]}', "sq_key": "{'b': %d}",
+              "sq_val": '{"b": %d, "s": \'x\'}', "bare_key": "{b: %d}", "none": '{"s": "v%d", "b": None}',
+              "true": '{"b": %d, "t": True}', "false": '{"b": %d, "t": False}', "undefined": '{"s": "v%d", "b": undefined}',
+              "nan": '{"s": "v%d", "b": NaN}', "flags": None, "vals": None}
+MANY_COUNTS = [25, 26, 30, 33, 50, 64, 65, 100, 128, 129, 200]
+
+
+def many_defects(kind, n, sep=", "):
+    """A text with n occurrences of the defect `kind` (and no other defect)."""
+    if kind == "flags":
+        return '{"items": [], "flags": [%s]}' % sep.join("True" if i % 3 else "False" for i in range(n))
+    if kind == "vals":
+        return '{"items": [], "vals": [%s]}' % sep.join("None" if i % 4 else str(i) for i in range(n + n // 3 + 1))
+    return '{"items": [%s]}' % sep.join(MANY_KINDS[kind] % i for i in range(n))
 
 
 SCALARS = ["null", "3", '"ab"', "[]", "[1, 2]", "", "   ", "{}", "true", "-0.0", "1e400", "```json null ```",
@@ -575,6 +604,74 @@ def dyadic(x):
     return fr.numerator, -(fr.denominator.bit_length() - 1)
 
 
+def dyadic_odd(x):
+    """binary64 -> (m, e), x == m * 2**e exactly, m odd (|m| < 2**53) or 0."""
+    fr = Fraction(x)
+    m, e = fr.numerator, -(fr.denominator.bit_length() - 1)
+    while m and m % 2 == 0:
+        m //= 2
+        e += 1
+    return m, e
+
+
+def float_obs(x):
+    """The model's float_obs: exact numerator / denominator; [0, 0] for inf / nan."""
+    if not isinstance(x, (int, float)) or isinstance(x, bool) or _math.isnan(x) or _math.isinf(x):
+        return [0, 0]
+    fr = Fraction(x)
+    return [fr.numerator, fr.denominator]
+
+
+# Clocks the chaperone module may be run under.  A spec is {"t0", "step", "script", "drift"}: the n-th reading made during
+# the case (whichever function of the time module is asked) is t0 + step * (script[n % L] + drift * (n // L)), L = len(script):
+# script [0] / drift 0 stands still, drift 1 ticks once per reading, [0, 0] / [0, 0, 0] with drift 1 are coarse ticks (two or
+# three readings per tick: consecutive readings are EQUAL), drift < 0 runs backwards, other scripts zig-zag.
+CLOCKS = {
+    "frozen": {"t0": 1700000000.0, "step": 0.0, "script": [0], "drift": 0},
+    "frozen-zero": {"t0": 0.0, "step": 1.0, "script": [0], "drift": 0},
+    "tick-1ms": {"t0": 1700000000.0, "step": 0.001, "script": [0], "drift": 1},
+    "coarse-2": {"t0": 1700000000.0, "step": 0.015625, "script": [0, 0], "drift": 1},
+    "coarse-3": {"t0": 1700000000.0, "step": 0.015625, "script": [0, 0, 0], "drift": 1},
+    "coarse-5": {"t0": 12345.5, "step": 1.0, "script": [0, 0, 0, 0, 0], "drift": 1},
+    "backwards": {"t0": 1700000000.0, "step": 0.25, "script": [0], "drift": -1},
+    "zigzag": {"t0": 1700000000.0, "step": 0.5, "script": [0, 3, 1, 1, 2, 0, 0, 7], "drift": 0},
+    "step-back-once": {"t0": 50.0, "step": 1.0, "script": [5, 0, 0, 1, 2, 2, 3], "drift": 4},
+    "huge-jumps": {"t0": -1.0e12, "step": 1.0e15, "script": [0, 1], "drift": 1},
+    "tiny-ticks": {"t0": 1700000000.0, "step": 2.0 ** -22, "script": [0], "drift": 1},
+    "negative-frozen": {"t0": -3.5, "step": 0.0, "script": [0], "drift": 0},
+}
+
+
+def clock_value(spec, n):
+    L = len(spec["script"])
+    return float(spec["t0"] + spec["step"] * (spec["script"][n % L] + spec["drift"] * (n // L)))
+
+
+class ClockProxy:
+    """Stands in for the `time` module inside operon_ai.organelles.chaperone while a case runs: every reading is recorded
+    (so the model is handed exactly the readings the implementation saw) and, when the case names a clock, produced by it."""
+    FLOAT_FNS = ("time", "perf_counter", "monotonic", "process_time", "thread_time")
+    NS_FNS = ("time_ns", "perf_counter_ns", "monotonic_ns", "process_time_ns", "thread_time_ns")
+
+    def __init__(self, spec):
+        self.spec, self.n, self.cur, self.on = spec, 0, [], True
+
+    def _read(self, real):
+        v = float(real()) if self.spec is None else clock_value(self.spec, self.n)
+        self.n += 1
+        if self.on:
+            self.cur.append(v)
+        return v
+
+    def __getattr__(self, name):
+        real = getattr(_time, name)
+        if name in self.FLOAT_FNS:
+            return lambda: self._read(real)
+        if name in self.NS_FNS:
+            return lambda: int(self._read(lambda: real() / 1e9) * 1e9)
+        return real
+
+
 class C11(Check):
     PID = "C11"
     HEADER = "From Verif Require Import C11.Model."
@@ -614,7 +711,20 @@ class C11(Check):
             "accessors are interleaved (get_statistics before the first fold and three times after every call, FoldedProtein.map "
             "with an identity and with a raising function on every plain result, HealingResult.valid/.structure) - the model "
             "does not see any of these options, so each must leave every observation unchanged, and the monitor compares with the "
-            "same call on a fresh default-knob silent Chaperone")
+            "same call on a fresh default-knob silent Chaperone. "
+            "THE CLOCK: the `time` module seen by operon_ai.organelles.chaperone is replaced for the duration of every case by a "
+            "recording proxy (time / perf_counter / monotonic / process_time and their _ns forms); every reading made during a "
+            "call is handed to the model (exact binary64 values), which must reproduce the number of readings and every "
+            "FoldingAttempt.duration_ms bit for bit. 30% of the generated cases run under a VIRTUAL clock instead of the machine's: "
+            "standing still (frozen at 1.7e9 / 0 / -3.5: every two readings equal, duration 0), coarse ticks (2, 3 or 5 readings "
+            "per 1/64 s or 1 s tick), 1 ms and 2^-22 s ticks, running backwards, zig-zag scripts, 1e15 s jumps, or a random "
+            "script (t0, step, script of 1..8 offsets, drift -2..2); enumerated: 6 (thorough: 12) clocks x 13 canonical texts x "
+            "{default,[S],[E],[L],[R]} as fold;fold_enhanced, x three healing runs and an on_misfold run. The monitor additionally "
+            "repeats every call of a virtual-clock case on a fresh Chaperone under the machine's clock (C11/clock-dependent). "
+            "MANY OCCURRENCES: 6% of the generated cases fold a text in which ONE repairable defect (trailing comma in objects / "
+            "arrays, single-quoted keys / values, bare keys, None / True / False, undefined, NaN) occurs n times, n in 25..200 "
+            "(or 1, 8, 24), as a list of n objects / booleans / optional ints of a List[Model] / List[bool] / List[Optional[int]] "
+            "schema; enumerated: 12 defect kinds x n in {24, 25, 65, 200} (thorough: 11 counts) as fold[R];enh[R];enh;fold")
     LEVEL_TEXT = ("Coq theorems, for all raw texts, schemas, strategy lists and ALL behaviours of json/re/str.strip/pydantic/"
                   "coercion/co-chaperone/on_misfold (return anything or raise any Exception class at any call), about an "
                   "executable model of Chaperone.fold and fold_enhanced: valid => the structure was returned by model_validate "
@@ -625,7 +735,11 @@ class C11(Check):
                   "returns that instance with confidence 1 and no coercion; neither fold raises unless a user callback does; "
                   "and for every HISTORY of calls on one object (state = counters + co-chaperone registry) each call returns "
                   "exactly what it returns on a fresh Chaperone (c11_history_independent), so every per-call theorem holds at "
-                  "every point of every history; and for ChaperoneLoop.heal over ANY generator, max_retries and confidence_decay: a "
+                  "every point of every history; the clock (time.time(), two readings per strategy tried) may return ANYTHING at every "
+                  "reading - stand still, run backwards, tick coarsely - without changing validity, structure, strategy, confidence, "
+                  "coercions, attempts, counters or the call sequence of any fold, heal or history (c11_clock_irrelevant, "
+                  "c11_heal_clock_irrelevant, c11_history_clock_irrelevant), the i-th duration being (reading 2i+1 - reading 2i) * 1000 "
+                  "(c11_clock_readings); and for ChaperoneLoop.heal over ANY generator, max_retries and confidence_decay: a "
                   "reported fold is the valid fold_enhanced result of a generation within the retry budget (structure validated from "
                   "THAT text), its confidence min(c, max(0, 1 - k*decay)) lies in [0,1] and is 1 only for STRICT, final_confidence "
                   "reports it, a degraded result carries no fold and only failed attempts with error traces, heal returns whenever "
@@ -637,7 +751,9 @@ class C11(Check):
     LEVEL_NOTE = ("Trusts: Coq kernel+VM; the recording harness; json, re, str.strip, pydantic and the coercion table are "
                   "oracles (their answers are recorded, not modelled), so that findall returns substrings and sub returns a "
                   "'repair' of its argument is outside the proof (c11_provenance_partial; substring-ness of every extraction "
-                  "candidate is tested in Python on each run); confidence theorems are over exact rationals, the executed "
+                  "candidate is tested in Python on each run); the clock is an oracle too (c11_clock_irrelevant: for ANY clock the timed model, "
+                  "which threads readings and durations through the loops, projects onto the untimed one); "
+                  "confidence theorems are over exact rationals, the executed "
                   "model uses binary64 (plus a bounded binary64 lemma for up to 1000 coercions). Axioms: none.")
     TECHNIQUE = ("Coq proof by induction over call/strategy/pattern/match lists of a writer-monad model + oracle-table "
                  "correspondence against histories of Chaperone.fold/fold_enhanced on one object")
@@ -648,7 +764,10 @@ class C11(Check):
                "visible only through the arguments of json.loads",
                "exceptions raised by the oracles are subclasses of Exception (KeyboardInterrupt/SystemExit/MemoryError excluded)",
                "confidence: theorems over Q with decimal literals read exactly; correspondence is bit-exact on binary64 (PrimFloat)",
-               "error strings are compared by shape (prefix / fixed text), durations are not modelled",
+               "error strings are compared by shape (prefix / fixed text)",
+               "the clock is an oracle: the readings of the time module made during a call are recorded (or produced by the "
+               "case's virtual clock) and replayed in the model; a clock returns a finite float and does not raise; only the "
+               "`time` module attribute of operon_ai.organelles.chaperone is substituted (datetime is not used by the anchored code)",
                "instance state modelled: the four statistics counters and the co_chaperones dict; strategies, on_misfold, silent "
                "and max_retries are set by the constructor only (silent / max_retries of the Chaperone, silent of the loop and the "
                "read-only accessors are NOT inputs of the model: cases that vary them must reproduce the model's observations)",
@@ -874,8 +993,44 @@ class C11(Check):
         return self._gen_knobs(rng, {"schemas": schemas, "texts": texts, "ctor": b["ctor"], "co": ({"0": b["co"]} if b["co"] else {}),
                                      "misfold": b["misfold"], "ops": ops, "tags": tags})
 
+    @staticmethod
+    def _gen_clock(rng):
+        """The clock the chaperone module reads during the case (None = the machine's, recorded)."""
+        if rng.random() < 0.65:
+            name = rng.choice(sorted(CLOCKS))
+            return name, dict(CLOCKS[name])
+        L = rng.choice([1, 1, 2, 2, 3, 4, 6, 8])
+        spec = {"t0": rng.choice([0.0, 1700000000.0, 1700000000.123456, -2.5, 1e-3, 86400.0 * 20000]),
+                "step": rng.choice([0.0, 1.0, 0.001, 0.015625, 2.0 ** -20, 0.1, 3600.0, 1e-6]),
+                "script": [rng.choice([0, 0, 0, 1, 1, 2, 3, 5, -1]) for _ in range(L)], "drift": rng.choice([-2, -1, 0, 0, 1, 1, 2])}
+        return "random", spec
+
+    def _gen_many(self, rng):
+        kind = rng.choice(sorted(MANY_KINDS))
+        n = rng.choice([rng.randint(25, 200), rng.choice(MANY_COUNTS), rng.choice([1, 8, 24])])
+        raw = many_defects(kind, n, rng.choice([", ", ",", ",\n  "]))
+        tags = ["many-defects", "many:" + kind, "many-n=" + ("<25" if n < 25 else "25..64" if n <= 64 else "65..200")]
+        if rng.random() < 0.25:
+            op = rng.choice(["fence_json", "prose", "xml", "pad"])
+            raw = apply_text_op(rng, op, raw)
+            tags.append(op)
+        arg = rng.choice([None, None, [3], [0, 3], [3, 2], [2, 3], [1, 3]])
+        if rng.random() < 0.6:
+            calls = [("fold", arg), ("enh", arg)]
+        else:
+            calls = [(rng.choice(["fold", "enh"]), rng.choice([arg, None, [3]])) for _ in range(rng.randint(2, 4))]
+        return self.history(MANY_SPEC, raw, rng.choice([None, None, [3, 0]]), calls, tags=tags)
+
     def gen_cases(self, rng, n):
-        return [self._gen_hist(rng) for _ in range(n)]
+        out = []
+        for _ in range(n):
+            case = self._gen_many(rng) if rng.random() < 0.06 else self._gen_hist(rng)
+            if rng.random() < 0.3:
+                name, spec = self._gen_clock(rng)
+                case["clock"] = spec
+                case["tags"] += ["clock", "clock=" + name]
+            out.append(case)
+        return out
 
     CANON_SPEC = [{"name": "name", "type": "str", "required": True}, {"name": "age", "type": "int", "required": True},
                   {"name": "tags", "type": "list_str", "required": False, "default": []}]
@@ -934,6 +1089,31 @@ class C11(Check):
                 out.append(self.history(self.REPAIR_SPEC, self.repair_ladder(k, rot), None, [("enh", [3]), ("fold", [3]), ("enh", None)],
                                         tags=["canon-repairs=%d" % k], access=(k + rot) % 2 == 1,
                                         knobs={"silent": False, "max_retries": 0} if k % 3 == 0 else None))
+        # the clock: every canonical text x every single strategy / the default list, under clocks that stand still,
+        # tick coarsely, run backwards, zig-zag
+        names = (["frozen", "coarse-2", "coarse-3", "backwards", "zigzag", "tick-1ms"] if self.tier == "quick" else sorted(CLOCKS))
+        for name in names:
+            for raw in self.CANON_RAW:
+                if len(raw) > 1000:
+                    continue
+                for arg in probes:
+                    c = self.history(self.CANON_SPEC, raw, None, [("fold", arg), ("enh", arg)], tags=["canon-clock", "clock=" + name])
+                    c["clock"] = dict(CLOCKS[name])
+                    out.append(c)
+            for nf in (0, 1, 2):
+                c = self.heal_case(self.CANON_SPEC, ["not json at all"] * nf + [self.CANON_RAW[nf]], nf, 0.25,
+                                   pre=[("enh", None)], post=[("fold", None)], tags=["canon-clock", "canon-heal", "clock=" + name])
+                c["clock"] = dict(CLOCKS[name])
+                out.append(c)
+            c = self.history(self.CANON_SPEC, "nothing", None, [("fold", None), ("enh", None)], misfold="record",
+                             tags=["canon-clock", "clock=" + name])
+            c["clock"] = dict(CLOCKS[name])
+            out.append(c)
+        # one repairable defect n times: around 24/25 and 64/65 and at 200
+        for kind in sorted(MANY_KINDS):
+            for n in ((24, 25, 65, 200) if self.tier == "quick" else (1, 24, 25, 26, 33, 64, 65, 100, 128, 129, 200)):
+                out.append(self.history(MANY_SPEC, many_defects(kind, n), None, [("fold", [3]), ("enh", [3]), ("enh", None), ("fold", None)],
+                                        tags=["canon-many", "many:" + kind]))
         return out
 
     @staticmethod
@@ -1076,10 +1256,14 @@ class C11(Check):
                 out += [code.get(a.strategy, 9), int(bool(a.success)), err_code(a.error)]
             return out
 
+        clock = ClockProxy(case.get("clock"))
+        seen = {"durs": None}
+
         def on_misfold(res):
             c = 3 if case["misfold"] == "raise" else 0
             if rec.active:
                 rec.log.append([7, c] + att_obs(res.attempts))
+                seen["durs"] = [getattr(a, "duration_ms", None) for a in res.attempts]
             if c:
                 raise CoRaise("on_misfold failed")
 
@@ -1107,8 +1291,8 @@ class C11(Check):
             return ([st["total_folds"], st["successful_folds"]] + [st["strategy_success"][v] for v in STRATS]
                     + [st["strategy_attempts"][v] for v in STRATS])
 
-        old_json, old_re = CH.json, CH.re
-        CH.json, CH.re = rec.make_json(), rec.make_re()
+        old_json, old_re, old_time = CH.json, CH.re, CH.time
+        CH.json, CH.re, CH.time = rec.make_json(), rec.make_re(), clock
         for i, sc in enumerate(schemas):
             rec.wrap_validate(sc, i)
         for t in texts:
@@ -1155,6 +1339,8 @@ class C11(Check):
                     pre["exc"] = e
             for op in case["ops"]:
                 st = {"op": op, "reg": dict(reg), "chap": chap, "out0": out_buf.tell()}
+                st["clock"] = clock.cur = []         # the readings of the time source made during this op
+                seen["durs"] = None
                 if op[0] == "register":
                     chap.register_co_chaperone(schemas[op[1]], make_co(op[2]))
                     reg[op[1]] = op[2]
@@ -1179,6 +1365,7 @@ class C11(Check):
                     except Exception as e:
                         st["res"] = ("raised", e)
                     st["log"] = rec.log
+                    clock.cur = []
                     if access and st["res"][0] == "ret":
                         accessors(st, st["res"][1])
                     st["stats"] = stats_obs(chap)
@@ -1190,6 +1377,8 @@ class C11(Check):
                     except Exception as e:
                         st["res"] = ("raised", e)
                     st["log"] = rec.log
+                    st["misfold_durs"] = seen["durs"]
+                    clock.cur = []
                     if access and st["res"][0] == "ret":
                         accessors(st, st["res"][1])
                     st["stats"] = stats_obs(chap)
@@ -1203,7 +1392,8 @@ class C11(Check):
                 common.call_with_watchdog(body, 90.0)
         finally:
             rec.active = False
-            CH.json, CH.re = old_json, old_re
+            clock.on = False
+            CH.json, CH.re, CH.time = old_json, old_re, old_time
 
         def struct_obs(x):
             return [0, 0] if x is None else [1, rec.iid(x)]
@@ -1221,6 +1411,12 @@ class C11(Check):
                 else:
                     co_obs += [3, rec.nid(c)]
             return rows + [co_obs, att_obs(r.attempts)]
+
+        def timing_row(st, durs):
+            row = [-4, len(st["clock"])]
+            for d in durs or []:
+                row += float_obs(d)
+            return row
 
         obs = []
         for st in steps:
@@ -1241,6 +1437,8 @@ class C11(Check):
                                 fa.numerator, fa.denominator]
                     obs.append(row)
                 obs.append(st["stats"])
+                hf = r.folded if kind == "ret" else None
+                obs.append(timing_row(st, [a.duration_ms for a in hf.attempts] if hf is not None else []))
                 obs += st["log"]
                 continue
             if op[0] == "register":
@@ -1263,6 +1461,10 @@ class C11(Check):
                 else:
                     obs += enh_obs(r)
             obs.append(st["stats"])
+            if op[0] == "enh" and kind == "ret":
+                obs.append(timing_row(st, [a.duration_ms for a in r.attempts]))
+            else:
+                obs.append(timing_row(st, st.get("misfold_durs")))
             obs += st["log"]
         tabs = rec.tables()
         trace = {"rec": rec, "tabs": tabs, "steps": steps, "schemas": schemas, "texts": texts,
@@ -1284,7 +1486,7 @@ class C11(Check):
             self._safe_impl(case)
         trace = self._last[1]
         if not isinstance(trace, dict) or "tabs" not in trace:
-            return "(mkCase [] [] [] [] (mkOTab [] [] [] [] [] [] [] [] 0))"
+            return "(mkCase [] [] [] [] [] (mkOTab [] [] [] [] [] [] [] [] 0))"
         t = trace["tabs"]
         cfg = [trace["npat"], trace["nrep"], int(bool(case["misfold"]))]
         tab = "(mkOTab %s %s %s %s %s %s %s %s %s)" % (
@@ -1310,7 +1512,13 @@ class C11(Check):
             else:
                 ops.append([0 if op[0] == "fold" else 1, trace["text_ids"][op[1]], op[2]] + list(op[3] or []))
         reg0 = [[int(k), CO_KINDS.index(v)] for k, v in sorted(case["co"].items())]
-        return "(mkCase %s %s %s %s %s)" % (czl(cfg), czl(case["ctor"] or []), czll(reg0), czll(ops), tab)
+        clocks = []
+        for n in range(len(case["ops"])):
+            row = []
+            for v in (trace["steps"][n].get("clock") or []) if n < len(trace["steps"]) else []:
+                row += list(dyadic_odd(v)) if not (_math.isnan(v) or _math.isinf(v)) else [0, 0]
+            clocks.append(row)
+        return "(mkCase %s %s %s %s %s %s)" % (czl(cfg), czl(case["ctor"] or []), czll(reg0), czll(ops), czll(clocks), tab)
 
     # -- the property, on the implementation's results -----------------------
     @staticmethod
@@ -1385,6 +1593,7 @@ class C11(Check):
         callbacks_raise = co_kind == "raise" or case["misfold"] == "raise"
         name = f"call {n} ({'fold' if fn == 'fold' else 'fold_enhanced'}, strategies={[STRATS[i] for i in strategies]})"
         kind, r = st["res"]
+        clk_note = f" [time source read {self._clock_text(case, st)}; error_trace={getattr(r, 'error_trace', None)!r:.160}]" if case.get("clock") else ""
         if kind == "raised":
             if isinstance(r, CoRaise) and callbacks_raise:
                 return None                    # the user's own callback raised: not demanded
@@ -1426,11 +1635,11 @@ class C11(Check):
             if want is not None:
                 if not (r.valid is True and repr(r.structure) == repr(want)):
                     return Violation("C11/strict-not-verbatim", f"{name}: schema-valid JSON with STRICT first gave valid={r.valid} "
-                                                                f"{r.structure!r:.100}, json.loads gives {want!r:.100}")
+                                                                f"{r.structure!r:.100}, json.loads gives {want!r:.100}{clk_note}")
                 if fn == "enh" and not (r.strategy_used is not None and r.strategy_used.value == "strict" and r.confidence == 1.0
                                         and r.coercions_applied == [] and len(r.attempts) == 1):
                     return Violation("C11/strict-not-verbatim", f"{name}: schema-valid JSON with STRICT first: strategy_used="
-                                                                f"{r.strategy_used}, confidence={r.confidence}, coercions={r.coercions_applied}")
+                                                                f"{r.strategy_used}, confidence={r.confidence}, coercions={r.coercions_applied}{clk_note}")
         # the same arguments on a FRESH Chaperone: the other fold must agree (plain/enhanced), the same
         # fold must give the same answer (no verdict carried over from earlier calls)
         if co_kind == "raise":
@@ -1444,6 +1653,20 @@ class C11(Check):
                 return f(raw, schema, None if arg is None else [S[i] for i in arg])
             except Exception as e:
                 return e
+        def view(x):
+            v = [x.valid, repr(x.structure)]
+            if fn == "enh":
+                v += [x.confidence, x.strategy_used, list(x.coercions_applied), [(a.strategy, a.success) for a in x.attempts]]
+            return v
+        if case.get("clock"):
+            # validity, structure, strategy, confidence are functions of the text, the schema and the strategies: the same
+            # call under the machine's clock must give the same answer as under this case's clock
+            ref = fresh(fn)
+            if isinstance(ref, Exception):
+                return Violation("C11/raises", f"{name}: raised {type(ref).__name__} on a fresh Chaperone: {str(ref)[:150]}")
+            if view(ref) != view(r):
+                return Violation("C11/clock-dependent", f"{name}: with the time source reading {self._clock_text(case, st)} the call gives "
+                                                        f"{view(r)!r:.200}; under the machine's clock (fresh Chaperone) {view(ref)!r:.200}")
         other = fresh("enh" if fn == "fold" else "fold")
         if isinstance(other, Exception):
             return Violation("C11/raises", f"{name}: the other fold raised {type(other).__name__} on a fresh Chaperone: {str(other)[:150]}")
@@ -1454,15 +1677,14 @@ class C11(Check):
         same = fresh(fn)
         if isinstance(same, Exception):
             return Violation("C11/raises", f"{name}: raised {type(same).__name__} on a fresh Chaperone: {str(same)[:150]}")
-
-        def view(x):
-            v = [x.valid, repr(x.structure)]
-            if fn == "enh":
-                v += [x.confidence, x.strategy_used, list(x.coercions_applied), [(a.strategy, a.success) for a in x.attempts]]
-            return v
         if view(same) != view(r):
             return Violation("C11/history-dependent", f"{name}: in this history the call gives {view(r)!r:.200}, on a fresh Chaperone {view(same)!r:.200}")
         return None
+
+    @staticmethod
+    def _clock_text(case, st):
+        r = st.get("clock") or []
+        return f"{r[:6]!r}{'...' if len(r) > 6 else ''} ({len(r)} readings; clock {case.get('clock')})"
 
     def _monitor_heal(self, case, trace, n, st):
         """The property for a fold REPORTED THROUGH the healing loop (ChaperoneLoop.heal drives fold_enhanced on this
@@ -1547,6 +1769,26 @@ class C11(Check):
 
         def fresh_chap():
             return CH.Chaperone(strategies=ctor, co_chaperones={schema: co_fn(co_kind)} if co_kind else None, silent=True)
+
+        def view(x):
+            v = [x.outcome.value, repr(x.structure), x.final_confidence, [(a.raw_output, a.success, a.confidence) for a in x.attempts]]
+            if x.folded is not None:
+                g = x.folded
+                v += [g.valid, g.confidence, g.strategy_used, list(g.coercions_applied), [(a.strategy, a.success) for a in g.attempts]]
+            return v
+
+        def same_loop():
+            return CL.ChaperoneLoop(generator=make_generator(CL, op, trace["texts"], lambda k, ctx, text: None),
+                                    chaperone=fresh_chap(), schema=schema, max_retries=mr,
+                                    confidence_decay=decay, silent=True).heal("p")
+        if case.get("clock"):
+            try:
+                ref = same_loop()
+            except Exception as e:
+                return Violation("C11/raises", f"{name}: raised {type(e).__name__} on a fresh Chaperone: {str(e)[:150]}")
+            if view(ref) != view(h):
+                return Violation("C11/clock-dependent", f"{name}: with the time source reading {self._clock_text(case, st)} the loop gives "
+                                                        f"{view(h)!r:.200}; under the machine's clock (fresh Chaperone) {view(ref)!r:.200}")
         for k, raw in enumerate(raws):
             try:
                 p = fresh_chap().fold(raw, schema)
@@ -1561,18 +1803,9 @@ class C11(Check):
         # (always with silent=True and the default constructor knobs: console output and max_retries of the Chaperone
         # must not change anything either)
         try:
-            same = CL.ChaperoneLoop(generator=make_generator(CL, op, trace["texts"], lambda k, ctx, text: None),
-                                    chaperone=fresh_chap(), schema=schema, max_retries=mr,
-                                    confidence_decay=decay, silent=True).heal("p")
+            same = same_loop()
         except Exception as e:
             return Violation("C11/raises", f"{name}: raised {type(e).__name__} on a fresh Chaperone: {str(e)[:150]}")
-
-        def view(x):
-            v = [x.outcome.value, repr(x.structure), x.final_confidence, [(a.raw_output, a.success, a.confidence) for a in x.attempts]]
-            if x.folded is not None:
-                g = x.folded
-                v += [g.valid, g.confidence, g.strategy_used, list(g.coercions_applied), [(a.strategy, a.success) for a in g.attempts]]
-            return v
         if view(same) != view(h):
             return Violation("C11/history-dependent", f"{name}: in this history the loop gives {view(h)!r:.200}, on a fresh Chaperone {view(same)!r:.200}")
         return None
@@ -1616,7 +1849,8 @@ class C11(Check):
     def nontrivial(self, case, obs, trace):
         return (bool([t for t in case["tags"] if t != "pair"]) or bool(case["ctor"]) or bool(case["co"]) or bool(case["misfold"])
                 or len(self._calls(case)) > 2 or any(op[3] for op in self._calls(case))
-                or any(op[0] == "heal" for op in case["ops"]) or bool(case.get("knobs")) or bool(case.get("access")))
+                or any(op[0] == "heal" for op in case["ops"]) or bool(case.get("knobs")) or bool(case.get("access"))
+                or bool(case.get("clock")))
 
     def classify(self, case, obs, trace):
         ks = ["op=" + o for o in case["tags"]] or ["op=clean"]
@@ -1638,6 +1872,18 @@ class C11(Check):
             ks.append("accessors-interleaved")
         if case["ctor"] == []:
             ks.append("ctor-strategies=[]")
+        if isinstance(trace, dict) and "steps" in trace:
+            for st in trace["steps"]:
+                rd = st.get("clock") or []
+                if st["op"][0] in ("fold", "enh", "heal"):
+                    ks.append("clock-readings=" + ("0" if not rd else "2" if len(rd) == 2 else "4..8" if len(rd) <= 8 else "10+"))
+                pairs = [(rd[i], rd[i + 1]) for i in range(0, len(rd) - 1, 2)]
+                if any(a == b for a, b in pairs):
+                    ks.append("clock:two-readings-equal(duration=0)")
+                if any(b < a for a, b in pairs):
+                    ks.append("clock:second-reading-earlier(duration<0)")
+                if any(b > a for a, b in pairs):
+                    ks.append("clock:duration>0")
         if isinstance(trace, dict) and "steps" in trace:
             for st in trace["steps"]:
                 if "res" not in st:
@@ -1748,6 +1994,15 @@ class C11(Check):
         for key in ("misfold",):
             if case[key] and pred({**case, key: None}):
                 case[key] = None
+        if case.get("clock"):
+            for cand in ({k: v for k, v in case.items() if k != "clock"}, {**case, "clock": dict(CLOCKS["frozen"])},
+                         {**case, "clock": dict(CLOCKS["coarse-2"])}):
+                try:
+                    if cand.get("clock") != case.get("clock") and pred(cand):
+                        case = cand
+                        break
+                except Exception:
+                    pass
         for key in ("knobs", "access"):
             if case.get(key):
                 cand = {k: v for k, v in case.items() if k != key}
